@@ -50,6 +50,18 @@ type faultEQ struct {
 	n      int
 	failAt int
 	log    []string
+	// lock mode: instead of an injected error, a second connection holds the database exclusively
+	// from the failAt-th statement until the next one (what "database is locked" is in reality:
+	// go-sqlite3 reports it from rows.Next(), not from QueryContext)
+	locker *sql.DB
+	locked bool
+}
+
+func (f *faultEQ) unlock() {
+	if f.locked {
+		f.locker.Exec("ROLLBACK")
+		f.locked = false
+	}
 }
 
 var errLocked = errors.New("database is locked")
@@ -59,6 +71,15 @@ func (f *faultEQ) hit(q string) bool {
 	defer f.mu.Unlock()
 	f.n++
 	f.log = append(f.log, strings.Join(strings.Fields(q), " "))
+	if f.locker != nil {
+		f.unlock()
+		if f.n == f.failAt {
+			if _, err := f.locker.Exec("BEGIN EXCLUSIVE"); err == nil {
+				f.locked = true
+			}
+		}
+		return false
+	}
 	return f.n == f.failAt
 }
 
@@ -78,7 +99,12 @@ func (f *faultEQ) ExecContext(ctx context.Context, q string, args ...any) (sql.R
 
 // inspectFaulty = InspectSchema through the wrapper + both exports.
 func inspectFaulty(db *sql.DB, failAt int) (hcl, sqlText string, reads int, log []string, err error) {
-	eq := &faultEQ{db: db, failAt: failAt}
+	return inspectFaultyL(db, nil, failAt)
+}
+
+func inspectFaultyL(db, locker *sql.DB, failAt int) (hcl, sqlText string, reads int, log []string, err error) {
+	eq := &faultEQ{db: db, failAt: failAt, locker: locker}
+	defer eq.unlock()
 	drv, err := sqlite.Open(eq)
 	if err != nil {
 		return "", "", eq.n, eq.log, err
@@ -107,6 +133,7 @@ type faultCase struct {
 	idxCounts  []int // per inspected table: number of index-info statements
 	kinds      []string
 	outcomes   []string // per k: err | same | DIFF
+	lockOut    []string // the same with a real lock held during the k-th statement
 	diffs      []viol
 }
 
@@ -176,6 +203,59 @@ func (c *faultCase) run() {
 				what, a, b = "SQL", q0, q
 			}
 			c.diffs = append(c.diffs, viol{"fault-export-differs", fmt.Sprintf("statement %d of %d (%s: %s) fails with %q: InspectSchema returns no error and the %s export differs: %s", k, n, c.kinds[k-1], short(log[k-1], 120), errLocked, what, short(firstLineDiff(a, b), 260))})
+		}
+	}
+}
+
+// runLocked: the same databases as files; during the k-th statement another connection holds
+// the database exclusively (busy_timeout 0).
+func (c *faultCase) runLocked(dir string) {
+	if c.createErr != nil || c.baseErr != nil {
+		return
+	}
+	os.MkdirAll(dir, 0o755)
+	p := filepath.Join(dir, "db0")
+	open := func() *sql.DB {
+		db, err := sql.Open("sqlite3", "file:"+p+"?_busy_timeout=0&_fk=1")
+		if err != nil {
+			panic(err)
+		}
+		db.SetMaxOpenConns(1)
+		return db
+	}
+	db := open()
+	defer db.Close()
+	if err := execScript(db, c.script); err != nil {
+		return
+	}
+	for _, s := range c.post {
+		db.Exec(s)
+	}
+	locker := open()
+	defer locker.Close()
+	locker.Exec("SELECT 1")
+	h0, q0, n, log, err := inspectFaultyL(db, locker, 0)
+	if err != nil {
+		return
+	}
+	for k := 1; k <= n; k++ {
+		// a fresh handle per run: an inspection that fails half-way may leave a result set open
+		// (addFKs returns without closing its rows), which would pin the only connection
+		dbk := open()
+		h, q, _, _, err := inspectFaultyL(dbk, locker, k)
+		go dbk.Close()
+		switch {
+		case err != nil:
+			c.lockOut = append(c.lockOut, "err")
+		case h == h0 && q == q0:
+			c.lockOut = append(c.lockOut, "same")
+		default:
+			c.lockOut = append(c.lockOut, "DIFF")
+			what, a, b := "HCL", h0, h
+			if h == h0 {
+				what, a, b = "SQL", q0, q
+			}
+			c.diffs = append(c.diffs, viol{"lock-export-differs", fmt.Sprintf("another connection holds the database (BEGIN EXCLUSIVE) during statement %d of %d (%s: %s): InspectSchema returns no error and the %s export differs: %s", k, n, stmtKind(log[k-1]), short(log[k-1], 100), what, short(firstLineDiff(a, b), 260))})
 		}
 	}
 }
@@ -304,16 +384,22 @@ func runFault(w *out.W, tier string) {
 		lc := newDanglingCase(fmt.Sprintf("fd%02d", gi), "hand", r, d, 0)
 		cases = append(cases, &faultCase{id: lc.id, script: lc.script, post: lc.post})
 	}
+	base, err := os.MkdirTemp("", "c03fault")
+	if err != nil {
+		panic(err)
+	}
+	defer os.RemoveAll(base)
 	var wg sync.WaitGroup
 	sem := make(chan struct{}, 12)
-	for _, c := range cases {
+	for i, c := range cases {
 		wg.Add(1)
 		sem <- struct{}{}
-		go func(c *faultCase) {
+		go func(i int, c *faultCase) {
 			defer wg.Done()
 			defer func() { <-sem }()
 			c.run()
-		}(c)
+			c.runLocked(filepath.Join(base, fmt.Sprintf("l%d", i)))
+		}(i, c)
 	}
 	wg.Wait()
 	for _, c := range cases {
@@ -351,21 +437,23 @@ func runFault(w *out.W, tier string) {
 		for _, o := range c.outcomes {
 			w.Count("outcome:" + o)
 		}
+		for _, o := range c.lockOut {
+			w.Count("lock-outcome:" + o)
+		}
 		seen := map[string]bool{}
 		for _, v := range c.diffs {
 			if seen[v.msg] {
 				continue
 			}
 			seen[v.msg] = true
-			w.Violation(c.id, "fault", fmt.Sprintf("symptom=%s how=inproc %s ;; sql=%s", v.class, v.msg, short(c.script, 500)))
+			cause := "fault"
+			if v.class == "lock-export-differs" {
+				cause = "lock"
+			}
+			w.Violation(c.id, cause, fmt.Sprintf("symptom=%s how=inproc %s ;; sql=%s", v.class, v.msg, short(c.script, 500)))
 		}
 	}
 	// ---- CLI: the fixed databases (+ generated ones in the thorough tier), HCL and SQL
-	base, err := os.MkdirTemp("", "c03fault")
-	if err != nil {
-		panic(err)
-	}
-	defer os.RemoveAll(base)
 	var cl []*cliFault
 	for i, sc := range faultScripts {
 		for fi, f := range []string{"{{ sql . }}", "{{ json . }}"} {
